@@ -39,3 +39,14 @@ reg(Unit("VarintEnc", "aiokafka/record/util.py", "encode_varint_py",
 reg(Unit("VarintSize", "aiokafka/record/util.py", "size_of_varint_py", {"value": "int"}, "Z"))
 reg(Unit("VarintDec", "aiokafka/record/util.py", "decode_varint_py",
          {"buffer": "bytes", "pos": "int"}, "ZZ", fuel={0: "11%nat"}))
+
+
+# ---- further units live in translator/units_*.py (one file per property) ------------------
+import glob as _glob
+import importlib as _importlib
+import os as _os
+
+for _f in sorted(_glob.glob(_os.path.join(_os.path.dirname(_os.path.abspath(__file__)), "units_*.py"))):
+    _m = _importlib.import_module(_os.path.basename(_f)[:-3])
+    for _u in getattr(_m, "UNITS", []):
+        reg(_u)
